@@ -251,6 +251,34 @@ def run(ctx):
   ctx.trace_ok(clip_n)
   ctx.leg('R', clip_cases=clip_n)
 
+  # example counts carried in narrow integer dtypes (what a size array of dtype int16 / uint8 yields): each weight fits its
+  # dtype, the TOTAL does not; the mean is still sum(w p) / sum(w)
+  from fedjax.aggregators import aggregator as agg_mod  # pylint: disable=g-import-not-at-top
+  narrow_n = 0
+  for dt_w, ws in ((np.int16, [20000, 25000, 15000]), (np.uint8, [200, 60, 40]), (np.int8, [100, 100, 27]), (np.uint16, [40000, 30000]),
+                   (np.int32, [2**30, 2**30, 2**30]), (jnp.int16, [30000, 30000]), (jnp.uint8, [255, 255, 2])):
+    vals = [np.array([1.0 + i, -2.0 * i, 0.5], np.float32) for i in range(len(ws))]
+    exact = sum(float(w) * v.astype(np.float64) for w, v in zip(ws, vals)) / float(sum(ws))
+    for via in ('tree_mean', 'mean_aggregator'):
+      weights = [dt_w(w) for w in ws]
+      trees = [{'p': jnp.asarray(v)} for v in vals]
+      cfg = dict(fn=via, weight_dtype=np.dtype(dt_w).name if dt_w in (np.int16, np.uint8, np.int8, np.uint16, np.int32) else str(dt_w.dtype), weights=ws)
+      narrow_n += 1
+      ctx.case(key=('narrow-weights', cfg['weight_dtype'], via), nontrivial=True)
+      try:
+        if via == 'tree_mean':
+          got = tree_util.tree_mean(zip(trees, weights))
+        else:
+          a_ = agg_mod.mean_aggregator()
+          got, _ = a_.apply([(b'c%d' % i, t, w) for i, (t, w) in enumerate(zip(trees, weights))], a_.init())
+        gotv = np.asarray(got['p'], np.float64)
+      except Exception as ex:  # pylint: disable=broad-except
+        ctx.violation(f'replay:mean:narrow-weights:{type(ex).__name__}', f'{type(ex).__name__}: {str(ex)[:160]} for {cfg}', replay={'cfg': cfg})
+        continue
+      if not np.allclose(gotv, exact, rtol=1e-5, atol=1e-6):
+        ctx.violation('replay:mean:narrow-weights', f'{via} gives {gotv.tolist()}, the weighted mean is {exact.tolist()} for {cfg}', replay={'cfg': cfg})
+  ctx.trace_ok(narrow_n)
+
   # ---- leg T: random larger trees, facts judged by TLC (PureHistory)
   ev = []
   tol = intern.Tolerant(rtol=2e-5, atol=1e-5)
